@@ -4,39 +4,39 @@ import json, subprocess
 hook_commit = subprocess.check_output(["git","-C","/repo","log","--format=%h","--grep=^verif:"]).decode().split()
 P = {
  "C01": ("reference-model monitor: set(Select/Evaluate delivery) vs independent XPath 1.0 evaluator, exhaustive over axis pairs/tests/separators and all small tree shapes", "3 C01",
-         "Every predicate-free 1- and 2-step path (all 144 axis pairs x node tests x {/,//} x {abs,rel}, explicit and abbreviated; thorough: all 1728 axis triples) is executed by the real engine from EVERY node of every ordered tree shape with <= 4 (thorough 5) elements and of seeded random trees, plus random 1-5 step paths; an online oracle compares the set of delivered nodes (Select, and the iterator returned by Evaluate) with the denotation computed by an independent reference evaluator. Exhaustive within the stated bounds, sampled beyond; this is the right level because the property quantifies over small finite dimensions (axes, tests) crossed with unbounded ones (trees)."),
+         "Every predicate-free 1- and 2-step path (all 144 axis pairs x node tests x {/,//} x {abs,rel}, explicit and abbreviated; thorough: all 1728 axis triples) is executed by the real engine from EVERY node of every ordered tree shape with <= 4 (thorough 5) elements and of seeded random trees, plus random 1-5 step paths; an online oracle compares the set of delivered nodes (Select, and the iterator returned by Evaluate) with the denotation computed by an independent reference evaluator. Exhaustive within the stated bounds, sampled beyond; All public entry points (Expr.Select, Evaluate, package Select, MustCompile, CompileWithNS(nil), a hand-driven iterator) and a navigator whose MoveTo adopts any position must deliver the same set; a scale family runs every axis from 9 contexts of a document with 1100 siblings / attributes / nesting levels. This is the right level because the property quantifies over small finite dimensions (axes, tests) crossed with unbounded ones (trees)."),
  "C02": ("reference-model monitor on predicate paths + predicate-alone evaluation; exhaustive step-axis x predicate-axis matrix; data-directed literals, cursor-hostile and/or operands", "3 C02",
-         "Exhaustive 12x12 matrix step-axis::t[pred-axis::t] (plain, not(), below //) from every node of all small tree shapes, exhaustive 12x12 matrix of two-step predicate paths on all shapes with <= 5 elements, plus seeded random predicate paths (nesting <= 2) on documents where candidates share ancestors/siblings; engine result sets are compared with the reference, and the predicate is also evaluated alone on a candidate. Exploration: detects state leaking between candidates on the executions produced."),
+         "Exhaustive 12x12 matrix step-axis::t[pred-axis::t] (plain, not(), below //) from every node of all small tree shapes, exhaustive 12x12 matrix of two-step predicate paths on all shapes with <= 5 elements, plus seeded random predicate paths (nesting <= 2) on documents where candidates share ancestors/siblings; engine result sets are compared with the reference, and the predicate is also evaluated alone on a candidate. A scale family evaluates ~400 generated predicate forms on documents with 300 and 1100 siblings / attributes / nesting levels. Exploration: detects state leaking between candidates on the executions produced."),
  "C03": ("reference-model monitor over an exhaustive grid of positional forms x step prefixes on wide documents with many parents of different fan-out", "3 C03",
-         "Grid of every positional predicate form on child steps under 9 prefixes (incl. //, */, descendant::*/, ancestor-or-self::*/) with optional trailing boolean predicate, and (flat)[n] / (//t)[n], from every node of wide documents; plus random positional paths. Compared as sets with the reference (proximity position per parent)."),
+         "Grid of every positional predicate form on child steps under 9 prefixes (incl. //, */, descendant::*/, ancestor-or-self::*/) with optional trailing boolean predicate, and (flat)[n] / (//t)[n], from every node of wide documents; plus random positional paths. Compared as sets with the reference (proximity position per parent). A scale family runs every stated positional form with n in {1..1101 around 2^k and 10^k boundaries} on sibling lists of 300 and 1100 nodes, compared as sequences."),
  "C04": ("metamorphic history monitor: every observation on a used *Expr vs the same operation on a fresh Compile (full sequences, scalar values and types, abort classes)", "3 C04",
-         "Histories of 2-12 Select/Evaluate operations on one compiled expression over a pool of documents, with partial consumption and iterators left open and resumed later; after every step the digest of the used expression is compared with a fresh compile. Exploration over histories; no reference needed."),
+         "Histories of 2-12 Select/Evaluate operations on one compiled expression over a pool of documents, with partial consumption and iterators left open and resumed later; after every step the digest of the used expression is compared with a fresh compile. A fifth of the histories uses a navigator whose MoveTo adopts positions in other documents; operations that exhaust the op budget are reported. Exploration over histories; no reference needed."),
  "C05": ("Go race detector on stress rounds sharing *Expr between goroutines + per-operation comparison with solo results", "3 C05",
          "Race-detector build of the worker runs rounds of 2-16 goroutines x 5-20 operations on 1-3 shared compiled expressions (Select drained/abandoned, Evaluate, Compile, regexp functions) with seeded yields at navigator calls; every DATA RACE block mentioning package xpath, every result differing from its solo digest and every fatal error is a violation. Evidence counts overlapping operation pairs on the same *Expr and distinct interleavings; sampled schedules, not enumerated."),
  "C06": ("process-level totality monitor: result-shape assertions on Compile/CompileWithNS/MustCompile, crash attribution to the announced case, CPU watchdog; nesting every recursive grammar construct to 10^k", "3 C06",
-         "Every recursive construct of the grammar nested to depth 10..4*10^5 (thorough 3*10^6), every iterative construct to length 10^6 (thorough 3*10^6), all byte truncations of generated expressions, 200k (thorough 8M) random token/byte strings, every function x 0-3 arguments over 9 argument kinds, long inputs ending in multi-byte/invalid UTF-8 at every offset; each through the three entry points with nil/empty/bound maps. A worker that dies (stack exhaustion) is attributed to the announced input."),
+         "Every recursive construct of the grammar nested to depth 10..4*10^5 (thorough 3*10^6), every iterative construct to length 10^6 (thorough 3*10^6), all byte truncations of generated expressions, 200k (thorough 8M) random token/byte strings, every function x 0-3 arguments over 9 argument kinds, long inputs ending in multi-byte/invalid UTF-8 at every offset; every ordered pair of 9 recursive wrappers alternated to depth 6..1000, the smallest inputs (empty, white space, every single byte); each through the three entry points with nil/empty/bound/odd-keyed maps. What is returned with a nil error (and what MustCompile returns for a rejected input) is evaluated on a 7-node document: a Go runtime error there means the expression is not usable. A worker that dies (stack exhaustion) is attributed to the announced input."),
  "C07": ("reference-model monitor over the exhaustive operand-type matrix with data-directed literals; short-circuit observed through an aborting right operand; every case as Evaluate and as predicate", "3 C07",
-         "Operator x operand-type matrix within the stated combinations, literals drawn from the values present in the compared node-set, and/or over all 4x4 type pairs with known truth values and an aborting right operand, cursor-moving left operands; compared exactly with the reference, both as top-level Evaluate and inside a Select predicate."),
+         "Operator x operand-type matrix within the stated combinations, literals drawn from the values present in the compared node-set, and/or over all 4x4 type pairs with known truth values and an aborting right operand, cursor-moving left operands; neighbouring doubles under all six operators; node-set comparisons over 300/1100 nodes; compared exactly with the reference, both as top-level Evaluate and inside a Select predicate."),
  "C08": ("reference-model monitor: exact float64 identity (NaN=NaN, +0=-0) on exhaustive lexical/operand grids and random arithmetic trees", "3 C08",
-         "Exhaustive grids (literal forms, number() string classes with padding, 28x28 operands x 4 operators incl. NaN/Infinity, mod 0..20 x 1..9, floor/ceiling, string() of values < 10^6) and seeded random trees of depth <= 4 over documents; engine float64 must be identical to the reference."),
+         "Exhaustive grids (literal forms, number() string classes with padding, 28x28 operands x 4 operators incl. NaN/Infinity, mod 0..20 x 1..9, floor/ceiling, string() of values < 10^6) and seeded random trees of depth <= 4 over documents; sums, counts and arithmetic over 300/1100 nodes; engine float64 must be identical to the reference."),
  "C09": ("reference-model monitor with an exhaustive substring(string,start,length) sweep and all pairs/triples of a 14-string alphabet", "3 C09",
-         "Exhaustive sweep of substring over 14 strings x starts -3..len+3 step 0.5 x lengths absent/-2..len+4 step 0.5/100 (+ NaN/Infinity), every other function over all pairs of the alphabet, random nestings to depth 4 with node-set arguments; exact equality with the reference."),
+         "Exhaustive sweep of substring over 14 strings x starts -3..len+3 step 0.5 x lengths absent/-2..len+4 step 0.5/100 (+ NaN/Infinity), every other function over all pairs of the alphabet, every function on pairs containing each printable ASCII character, subjects of 100-5000 characters with multi-byte characters at the cut points, string-values of 7 KB assembled from 1100 text nodes; random nestings to depth 4 with node-set arguments; exact equality with the reference."),
  "C10": ("parse-tree monitor through the verif hook vs an independent reference parser, exhaustive over operator chains; whitespace and abbreviation metamorphic pairs (tree and value)", "3 C10",
-         "All operator chains of length <= 4 over the 14 binary operators (41370 sequences x 3 operand/unary-minus variants; quintuples sampled, exhaustive in thorough) parsed by the real parser (hook) and by the reference parser; the VALUE of all 30940 chains of length <= 4 over 13 operators with distinct numeric operands vs the reference (needs no hook); every chain and generated expression re-tokenised with no/conventional/maximal whitespace; every abbreviation expanded position by position."),
+         "All operator chains of length <= 4 over the 14 binary operators (41370 sequences x 3 operand/unary-minus variants; quintuples sampled, exhaustive in thorough) parsed by the real parser (hook) and by the reference parser; the VALUE of all 30940 chains of length <= 4 over 13 operators with distinct numeric operands vs the reference (needs no hook); every chain and generated expression re-tokenised with no/conventional/maximal whitespace; every abbreviation expanded position by position; the value of unparenthesised chains of 20-400 operators mixing all precedence levels."),
  "C11": ("reference-model monitor on the delivery multiset of unions; directed identity-collision search over all node pairs of hostile-name documents", "3 C11",
-         "For every pair of distinct nodes of hostile-name documents the union of their two address paths must deliver exactly 2 nodes; random unions (nested, overlapping, sequence form) compared as multisets with the reference set union."),
+         "For every pair of distinct nodes of hostile-name documents the union of their two address paths must deliver exactly 2 nodes; random unions (nested, overlapping, sequence form) compared as multisets with the reference set union; node pairs whose sibling position / attribute index / depth differ by 255, 256, 257, 512, 65536 on documents with 300, 1100 and 66000 siblings."),
  "C12": ("sequence monitor for flat paths vs reference document order + engine-vs-engine iterator protocol relations (Evaluate/Select, count, reverse, extra MoveNext, Current, copied navigators)", "3 C12",
-         "Flat paths on wide/deep documents: the delivery sequence must equal the reference node-set in document order; for node-set expressions of every generator the iterator is driven by hand: Evaluate sequence = Select sequence, count() = length, reverse() = reversed, 1-5 extra MoveNext stay false, Current() on the reported node, copied navigators not moved."),
+         "Flat paths on wide/deep documents: the delivery sequence must equal the reference node-set in document order; for node-set expressions of every generator the iterator is driven by hand: Evaluate sequence = Select sequence, count() = length, reverse() = reversed, 1-5 extra MoveNext stay false, Current() on the reported node, copied navigators not moved; reverse() results are node-set expressions too; flat paths over 300/1100 siblings and attributes in sequence; a navigator whose MoveTo always fails."),
  "C13": ("metamorphic monitors (absolute from every start node; relative = addr(n)/relative; P[true()], (P), P|P, not(not(P))) with the left side checked against the reference", "3 C13",
-         "For generated paths of the C01/C02 fragments: absolute paths selected from every node vs from the root; relative paths at every node vs composed absolute paths; wrapping identities; left sides also compared with the reference so that a fault breaking both sides is seen."),
+         "For generated paths of the C01/C02 fragments: absolute paths selected from every node vs from the root; relative paths at every node vs composed absolute paths; wrapping identities; left sides also compared with the reference so that a fault breaking both sides is seen; absolute paths from start nodes 1000 levels deep / 700 siblings in."),
  "C14": ("reference-model monitor under the three namespace configurations (no map / map + URI navigator / missing prefix) and both navigator kinds; name functions", "3 C14",
-         "Namespace documents (0-3 URIs, several prefixes per URI, default namespace, prefixed attributes) x maps (nil, {}, as document, other prefixes, rebinding, arbitrary) x name tests on all axes; compile errors for unbound prefixes; name()/local-name()/namespace-uri() with and without argument."),
+         "Namespace documents (0-3 URIs, several prefixes per URI, default namespace, prefixed attributes) x maps (nil, {}, as document, other prefixes, rebinding, arbitrary) x name tests on all axes; compile errors for unbound prefixes; name()/local-name()/namespace-uri() with and without argument; an expression without prefixes selects the same under any map; a document with 1100 namespaces under a map with 2200 entries."),
  "C15": ("panic-classifying monitor (runtime.Error vs deliberate error) + navigator-op budget for termination + result-type assertion on token-level generated expressions", "3 C15",
-         "Token-level expression texts ignoring typing (31 functions x 0-4 args, 13 axes, variables, all operators, filters on non-node-sets) and a function x argument-kind grid; every text Compile accepts is run through Select and Evaluate from all kinds of context nodes; a recovered runtime.Error, an exhausted op budget or an undocumented result type is a violation."),
+         "Token-level expression texts ignoring typing (31 functions x 0-4 args, 13 axes, variables, all operators, filters on non-node-sets) and a function x argument-kind grid; every text Compile accepts is run through Select and Evaluate from all kinds of context nodes; a recovered runtime.Error, an exhausted op budget or an undocumented result type is a violation (round() at top level is the recorded finding KF-1, by call site)."),
  "C16": ("differential monitor vs Go regexp + per-event cache monitors with harness-controlled load() (barriers, scripted failures), observer goroutine on the stats hook, race detector", "3 C16",
-         "Regex grammar x subjects x templates vs Go's regexp through Evaluate, also with patterns/templates taken from the document; EVERY key sequence of length <= 6 over 4 keys x 5 capacities x 4 failure scripts sequentially; concurrent histories of 2-16 goroutines with load() blocking in the unlocked miss window; swapped RegexpCache; -race build."),
+         "Regex grammar x subjects x templates vs Go's regexp through Evaluate, also with patterns/templates taken from the document; EVERY key sequence of length <= 6 over 4 keys x 5 capacities x 4 failure scripts sequentially; concurrent histories of 2-16 goroutines with load() blocking in the unlocked miss window; swapped RegexpCache (custom, case-folding and refusing loaders); capacities 64..65536 with three times as many keys (long common prefixes, case twins) sequentially and from 8 goroutines; -race build."),
  "C17": ("rejection monitor over token-level damage operators applied at every position of generated valid expressions, filtered by the reference parser", "3 C17",
-         "Every damage class of the statement applied at every applicable token position of generated valid expressions (about 17 damaged texts per expression); a damaged text the reference parser/validator also rejects must be rejected by Compile."),
+         "Every damage class of the statement applied at every applicable token position of generated valid expressions (about 17 damaged texts per expression); also in the whitespace-rich spelling; a damaged text the reference parser/validator also rejects must be rejected by Compile."),
 }
 checks = []
 for pid in sorted(P):
